@@ -471,14 +471,14 @@ Proof.
     apply set_nth_forall; [exact Hh|]. unfold handle_ok in *. rewrite N5. exact Hf.
 Qed.
 
-(* histories: every call in range; RemoveAll as far as the invariant is proved *)
+(* histories in which every call addresses the view and an existing handle *)
 Fixpoint run_ok (w : oworld) (cs : list call) : Prop :=
   match cs with
   | [] => True
-  | c :: r => ra_ok (ow_fs w) c /\ call_in_range w c /\ run_ok (fst (ostep w c)) r
+  | c :: r => call_in_range w c /\ run_ok (fst (ostep w c)) r
   end.
 
-Theorem C07_orefa_run_partial : forall um cs,
+Theorem C07_orefa_run : forall um cs,
   run_ok (o_init_world_linux um) cs -> Forall res_ok (snd (orun (o_init_world_linux um) cs)).
 Proof.
   intros um cs.
@@ -486,9 +486,9 @@ Proof.
   assert (H2 : handles_ok (o_init_world_linux um)) by constructor.
   revert H1 H2. generalize (o_init_world_linux um). induction cs as [|c r IH]; intros w Hinv Hh Hrun; cbn [orun].
   - constructor.
-  - destruct Hrun as (Hra & Hrng & Hrest).
+  - destruct Hrun as (Hrng & Hrest).
     pose proof (C07_orefa_total w c Hinv Hh Hrng) as Hres.
-    pose proof (C05_orefa_step_partial w c Hinv Hra) as Hinv'.
+    pose proof (C05_orefa_step w c Hinv) as Hinv'.
     pose proof (handles_ok_step w c Hh) as Hh'.
     destruct (ostep w c) as [w1 r1]. cbn [fst snd] in *.
     specialize (IH w1 Hinv' Hh' Hrest). destruct (orun w1 r) as [w2 rs]. cbn [snd] in *.
